@@ -599,6 +599,8 @@ Section Hash.
   (* the exploratory / blocking-analysis functions register their input tables under fresh aliases
      (__splink__<uid>) when they get a list of tables; with more than one table the aliases are literals of the
      SQL ('alias' as source_dataset), so every call produces new SQL text *)
+  (* rule numbers are 0 or 1: [rule + 2 * fsalt s] keeps (rule, call) pairs apart (rule + fsalt s made rule 1 of one
+     call coincide with rule 0 of the next) *)
   Definition fsalt (s : state) : nat :=
     match st_inputs s with _ :: _ :: _ => 1000 + st_ctr s | _ => 0 end.
 
@@ -626,14 +628,14 @@ Section Hash.
           IExec BOTN 0 [RReg 0] [] true; IDeleteTables ]
     | Completeness => [ IFreshUid; IExec COMPL (fsalt s) [RConcatInline] [] (negb (fxco (st_fix s))) ]
     | BlockingCount rule =>
-        [ IFreshUid; IExec TOTAL (200 + rule + fsalt s) [RConcatInline] [] true; IDrop 0;
-          IExec POSTF (rule + fsalt s) [RConcatInline] [] true; IDrop 1 ]
+        [ IFreshUid; IExec TOTAL (200 + rule + 2 * fsalt s) [RConcatInline] [] true; IDrop 0;
+          IExec POSTF (rule + 2 * fsalt s) [RConcatInline] [] true; IDrop 1 ]
     | BlockingCumulative =>
-        [ IFreshUid; IExec TOTAL (200 + fsalt s) [RConcatInline] [] true; IDrop 0;
-          IExec TOTAL (201 + fsalt s) [RConcatInline] [] true; IDrop 1;
+        [ IFreshUid; IExec TOTAL (200 + 2 * fsalt s) [RConcatInline] [] true; IDrop 0;
+          IExec TOTAL (201 + 2 * fsalt s) [RConcatInline] [] true; IDrop 1;
           IExec DFCOUNT (fsalt s) [RConcatInline] [] (negb (fxba (st_fix s)));
           IExec CUM (300 + fsalt s) [RBlockedInline (300 + fsalt s)] [] (negb (fxba (st_fix s))) ]
-    | BlockingLargest rule => [ IFreshUid; IExec BLOCKCOUNTS (rule + fsalt s) [RConcatInline] [] (negb (fxba (st_fix s))) ]
+    | BlockingLargest rule => [ IFreshUid; IExec BLOCKCOUNTS (rule + 2 * fsalt s) [RConcatInline] [] (negb (fxba (st_fix s))) ]
     | ClusterMulti =>
         predict_prog s ++ [ IFreshUid; IExec CAAT (1000 + st_ctr s) [RReg 2; RInputsRaw] [] true ]
     | GraphMetrics thr =>
@@ -801,7 +803,10 @@ End Hash.
                                             (gen: distinct objects have distinct gens, addresses are reused), its model;
                      [RDict base conf]      a settings dict: everything but the ComparisonCreator.configure() values
                                             (base) and those values (conf: m/u probabilities, tf adjustments);
-                     [RStr p]               a path / json string.
+                     [RStr p]               a settings file given by name (str or pathlib.Path): p stands for the file
+                                            AND its content, which is fixed for the whole sequence.  A file rewritten
+                                            between calls is outside this model (harness X: uncached-reference oracle
+                                            only); likewise the SQL dialect (one DatabaseAPI per sequence here).
    The generated SQL is identified by the settings' model and the flag it was generated with ([rt_sql]).
    [rt_params] are the key ingredients that translators/c07_realtime.py reads off the source on every run. *)
 Inductive rt_settings := RObj (addr gen model : nat) | RDict (base conf : nat) | RStr (p : nat).
